@@ -9,6 +9,7 @@ spec/Wire.tla (framing / request loop / send layers).  Binding:
                  thread saw) is recorded and judged by TLC against Trace_Wire; seeded grammar-based
                  byte-level fuzzing with random segmentations goes beyond TLC's catalogue.
 """
+import functools
 import hashlib
 import json
 import os
@@ -86,6 +87,9 @@ def _no_constant(name):
     raise ValueError('non-strict JSON constant ' + name)
 
 
+_STRICT = json.JSONDecoder(parse_constant=_no_constant)
+
+
 def _dec(b):
     try:
         return b.decode('utf-8')
@@ -94,6 +98,7 @@ def _dec(b):
 
 
 # ---------------------------------------------------------------- alpha for input lines
+@functools.lru_cache(maxsize=8192)
 def a_in(line):
     """request descriptor of one input line (without its NL) in the vocabulary of Wire.tla"""
     s = line.strip(b' \r')
@@ -110,7 +115,7 @@ def a_in(line):
             jsonbad = True
         else:
             try:
-                json.loads(dt, parse_constant=_no_constant)
+                _STRICT.decode(dt)
             except ValueError:
                 try:
                     json.loads(dt)
@@ -135,6 +140,7 @@ def a_in(line):
 
 
 # ---------------------------------------------------------------- alpha for output lines
+@functools.lru_cache(maxsize=8192)
 def a_out(line):
     o = {'action': '', 'spec': '', 'iserr': False, 'base': '', 'err': '', 'utf8': True, 'strict': True,
          'nanonly': False, 'dig': ''}
@@ -147,7 +153,7 @@ def a_out(line):
     val = None
     if data.strip():
         try:
-            val = json.loads(data, parse_constant=_no_constant)
+            val = _STRICT.decode(data)
         except ValueError:
             o['strict'] = False
             try:
@@ -355,7 +361,8 @@ def run_stream(segments, hw='fin', other='idle'):
 def _is_async(o, pend):
     """same rule as Wire!IsAsync (needed to pair replies with requests when building reference answers)"""
     return o['action'] in ('update', 'log', '_') or \
-        (o['iserr'] and o['base'] == 'update' and (not pend or pend[0]['act'] != 'update'))
+        (o['iserr'] and o['base'] == 'update' and not (
+            pend and (pend[0]['act'] == 'update' or not (pend[0]['utf8'] and pend[0]['canon']))))
 
 
 def pairs(events):
@@ -407,6 +414,8 @@ def _replay_framing(beh):
     """beh: {stream, steps:[{chunk, exp:{buf, lines}}], reqs:[LineReq]} from Gen_Wire"""
     res = {'bad': None, 'traces': [], 'raws': []}
     for gname, g in (('g1', GAMMA1), ('g2', GAMMA2)):
+        if gname == 'g2' and not ('N' in beh['stream'] and ('x' in beh['stream'] or 'y' in beh['stream'])):
+            continue       # the second concretisation differs only in the payload bytes of complete lines
         conc = lambda s: b''.join(g[c] for c in s)
         segs = [conc(st['chunk']) for st in beh['steps']]
         w, s1 = run_stream(segs, other='idle')
@@ -780,14 +789,18 @@ def run(chk):
                 'loop: every sequence of line classes of Gen_Wire x 3 segmentations; fuzz: seeded byte-level mutants x '
                 'random segmentation; each execution is one trace judged by Trace_Wire. A case is distinct by its '
                 '(stream, cut) / class sequence / seed; non-trivial = at least one NL-terminated line')
-    for m in ('Wire', 'Gen_Wire', 'Trace_Wire'):
-        sany(m)
-    # 1 design
-    chk.add_tlc(model_check('Wire', 'MC_Wire_quick.cfg' if quick else 'MC_Wire_thorough.cfg', timeout=900))
-    chk.add_tlc(model_check('Wire', 'MC_Wire_loop_quick.cfg' if quick else 'MC_Wire_loop_thorough.cfg', timeout=900))
-    chk.add_tlc(model_check('Wire', 'MC_Wire_send.cfg', timeout=300))
-    r = run_tlc('Wire', 'MC_Wire_send_nolock.cfg', timeout=300)
-    if not (r.violated and r.violated[1] == 'LinesWhole'):
+    from concurrent.futures import ThreadPoolExecutor
+    with ThreadPoolExecutor(6) as ex:
+        # 1 design (the JVMs run side by side)
+        jobs = [ex.submit(sany, m) for m in ('Gen_Wire', 'Trace_Wire')]      # both extend Wire
+        jobs += [ex.submit(model_check, 'Wire', cfg, timeout=900) for cfg in (
+            'MC_Wire_quick.cfg' if quick else 'MC_Wire_thorough.cfg',
+            'MC_Wire_loop_quick.cfg' if quick else 'MC_Wire_loop_thorough.cfg', 'MC_Wire_send.cfg')]
+        jobs.append(ex.submit(run_tlc, 'Wire', 'MC_Wire_send_nolock.cfg', timeout=300))
+        res = [j.result() for j in jobs]
+    for r in res[2:5]:
+        chk.add_tlc(r)
+    if not (res[5].violated and res[5].violated[1] == 'LinesWhole'):
         raise MachineryError('LinesWhole is vacuous: the design without the send lock does not violate it')
 
     stage('design')
@@ -804,12 +817,11 @@ def run(chk):
             chk.impl_traces += 1
             chk.violation({'module': 'Wire', 'layer': 'framing', 'what': x['bad']['what']},
                           {'kind': 'framing', 'stream': beh['stream'], 'cut': cut, **x['bad']})
-        for tr, raw, g in zip(x['traces'], x['raws'], ('g1', 'g2')):
+        for tr, raw, g in zip(x['traces'], x['raws'], ('g1', 'g2')):      # (g2 may be absent)
             traces.append(tr)
             info.append({'stream': beh['stream'], 'cut': cut, 'gamma': g, 'raw': raw})
     stage('framing replay')
-    _judge(chk, [('framing', traces, lambda i, info=info: info[i])])
-    stage('framing judge')
+    groups = [('framing', traces, lambda i, info=info: info[i])]
     chk.sample({'framing': {'stream': behs[len(behs) // 2]['stream'],
                             'cut': [len(s['chunk']) for s in behs[len(behs) // 2]['steps']]}})
 
@@ -839,8 +851,7 @@ def run(chk):
             traces.append(tr)
             info.append({'seq': seq, 'seed': seed, 'raw': raw, **sg})
     stage('classes replay')
-    _judge(chk, [('classes', traces, lambda i, info=info: info[i])])
-    stage('classes judge')
+    groups.append(('classes', traces, lambda i, info=info: info[i]))
     chk.sample({'classes': items[len(items) // 2][0], 'trace': traces[len(traces) // 2][:6]})
 
     # 4 code -> spec: fuzz
@@ -849,8 +860,8 @@ def run(chk):
     res = pool_map(_fuzz, seeds)
     for sd in seeds:
         chk.case(('Z', sd), True)
-    groups = [('fuzz', [x['trace'] for x in res],
-               lambda i, res=res: {'seed': seeds[i], **{k: res[i][k] for k in ('raw', 'stream', 'hw', 'other', 'seg')}})]
+    groups.append(('fuzz', [x['trace'] for x in res], lambda i, res=res: {
+        'seed': seeds[i], **{k: res[i][k] for k in ('raw', 'stream', 'hw', 'other', 'seg')}}))
     chk.sample({'fuzz_stream': res[0]['stream'][:200], 'seg': res[0]['seg']})
 
     # 5 a second thread sends (LinesWhole) - real threads, sequentially in this process
@@ -875,7 +886,7 @@ def run(chk):
                              for tr in traces], lambda i, traces=traces: {'records': traces[i]}))
     stage('fuzz threads codec')
     _judge(chk, groups)
-    stage('rest judge')
+    stage('judge')
     chk.assumptions += [
         'lines with action "_" (help text), "update", "log" are asynchronous / informational lines, not replies',
         'for "*IDN?" and "help" a spurious specifier need not be echoed; "describe" may answer with specifier "."',
